@@ -151,6 +151,10 @@ impl<'a> MetaStoreUpdate<'a> {
         if node_num % 4 != 0 {
             return Err(MetaStoreError::InvalidNodeNum);
         }
+        // Every master needs at least one slot.
+        if node_num / 2 > SLOT_NUM {
+            return Err(MetaStoreError::InvalidNodeNum);
+        }
         let proxy_num = NonZeroUsize::new(node_num / 2).ok_or(MetaStoreError::InvalidNodeNum)?;
 
         let proxy_resource_arr = if self.store.enable_ordered_proxy {
@@ -305,6 +309,10 @@ impl<'a> MetaStoreUpdate<'a> {
         };
 
         if num % 4 != 0 {
+            return Err(MetaStoreError::InvalidNodeNum);
+        }
+        // Every master needs at least one slot.
+        if existing_proxy_num + num / 2 > SLOT_NUM {
             return Err(MetaStoreError::InvalidNodeNum);
         }
         let proxy_num = NonZeroUsize::new(num / 2).ok_or(MetaStoreError::InvalidNodeNum)?;
